@@ -502,7 +502,7 @@ pub struct CholCase {
     pub b: Vec<f64>,
 }
 
-pub const CHOL_CLASSES: [&str; 6] = ["diagonal", "gram", "graded", "integer-spd", "tridiagonal", "low-rank+delta"];
+pub const CHOL_CLASSES: [&str; 7] = ["diagonal", "gram", "graded", "integer-spd", "tridiagonal", "low-rank+delta", "nearly-dependent"];
 
 pub fn build_chol(class: u8, n: usize, k: usize, salt: u64) -> CholCase {
     let mut rng = Rng::new(Hx::new().u(salt).u(200 + class as u64).u(n as u64).finish());
@@ -546,6 +546,42 @@ pub fn build_chol(class: u8, n: usize, k: usize, salt: u64) -> CholCase {
                 }
             }
             a
+        }
+        6 => {
+            // SPD matrices at the top of the stated condition range (2e6 .. 8e7) whose smallest Cholesky pivot is tiny
+            // *relative to its own diagonal entry* (d_k / a_kk down to ~4/cond): a pair of nearly dependent coordinates
+            // [[s, s(1−δ)], [s(1−δ), s]] inside an otherwise well-conditioned matrix, or I − (1−ε)·v·vᵀ with one tiny
+            // eigenvalue. Grading by a diagonal (class "graded") never produces this: the ratio is invariant under D·A·D.
+            let u = rng.unif_in(6.0, 7.6);
+            let small = 10f64.powf(-u); // δ resp. ε: cond ≈ 2/δ resp. 1/ε ≤ 8e7
+            if n >= 2 && rng.coin() {
+                let mut a = build::spd_gram(&mut rng, n, 0.5);
+                let i = rng.below(n - 1);
+                let j = i + 1 + rng.below(n - 1 - i);
+                let sc = rng.unif_in(0.5, 2.0);
+                for t in 0..n {
+                    for &r in &[i, j] {
+                        a[r * n + t] = 0.0;
+                        a[t * n + r] = 0.0;
+                    }
+                }
+                a[i * n + i] = sc;
+                a[j * n + j] = sc;
+                a[i * n + j] = sc * (1.0 - small);
+                a[j * n + i] = sc * (1.0 - small);
+                a
+            } else {
+                let v: Vec<f64> = (0..n).map(|_| rng.sign() / (n as f64).sqrt()).collect();
+                let mut a = vec![0.0; n * n];
+                for i in 0..n {
+                    for j in i..n {
+                        let x = if i == j { 1.0 } else { 0.0 } - (1.0 - small) * v[i] * v[j];
+                        a[i * n + j] = x;
+                        a[j * n + i] = x;
+                    }
+                }
+                a
+            }
         }
         _ => {
             // rank ≈ n/2 Gram matrix plus δ·I: cond ≈ 4/δ
